@@ -148,7 +148,7 @@ for fam, T, typed, drop, fixed, mis, props, qs in [
     ('splice_typed_e8', 'E8', 'true', 'false', 'false', 'false', ['C02', 'C03', 'C05'], {1}),
     ('splice_typed_e24', 'E24', 'true', 'false', 'false', 'false', ['C02'], set()),
     ('splice_fixed_e8', 'E8', 'false', 'true', 'true', 'false', ['C11', 'C02', 'C19'], {2}),
-    ('splice_misreport_e8', 'E8', 'false', 'true', 'false', 'true', ['C06'], {1}),
+    ('splice_misreport_e8', 'E8', 'false', 'true', 'false', 'true', ['C06', 'C05'], {1}),
     ('splice_typed_misreport_e8', 'E8', 'true', 'false', 'false', 'true', ['C06'], set()),
 ]:
     for k in range(4):
